@@ -618,21 +618,23 @@ func pushConnNow(up *rtpUpConnection, g *group.Group, cs []group.Client) {
 }
 
 // pushConn schedules a call to pushConnNow
-func pushConn(up *rtpUpConnection, g *group.Group, cs []group.Client) {
+func pushConn(up *rtpUpConnection, g *group.Group) {
 	up.mu.Lock()
 	up.pushed = false
 	up.mu.Unlock()
 
-	go func(g *group.Group, cs []group.Client) {
+	go func(g *group.Group) {
 		time.Sleep(200 * time.Millisecond)
 		up.mu.Lock()
 		pushed := up.pushed
 		up.pushed = true
 		up.mu.Unlock()
 		if !pushed {
-			pushConnNow(up, g, cs)
+			// clients may have joined in the meantime, and only
+			// the first of a series of delayed pushes takes effect
+			pushConnNow(up, g, g.GetClients(up.client))
 		}
-	}(g, cs)
+	}(g)
 }
 
 func newUpConn(c group.Client, id string, label string, offer string) (*rtpUpConnection, error) {
@@ -694,10 +696,10 @@ func newUpConn(c group.Client, id string, label string, offer string) (*rtpUpCon
 
 		up.mu.Unlock()
 
-		pushConn(up, g, g.GetClients(c))
+		pushConn(up, g)
 	})
 
-	pushConn(up, g, g.GetClients(c))
+	pushConn(up, g)
 	go rtcpUpSender(up)
 
 	return up, nil
